@@ -20,8 +20,11 @@ def main():
   sh(['git', '-C', '/repo', 'worktree', 'add', '--detach', wt, 'HEAD'])
   lost = 0
   try:
+    only = set(sys.argv[1:])
     for d in sorted(glob.glob(os.path.join(VERIF, 'seeded', '*'))):
       name = os.path.basename(d)
+      if only and name not in only:
+        continue
       meta = json.load(open(os.path.join(d, 'meta.json')))
       det = meta.get('detected_by') or {}
       sh(['git', 'reset', '--hard', '-q'], cwd=wt)
@@ -31,7 +34,9 @@ def main():
       if rc != 0:
         print('%-8s patch no longer applies' % name)
         continue
-      props = sorted(det) or [name.split('-')[0]]
+      # a seed no check caught when it was stored is tried against every
+      # check (a rule added since may live in another property)
+      props = sorted(det) or ['C%02d' % i for i in range(1, 21)]
       hits = []
       for p in props:
         rc, out = sh([PY, os.path.join(SNAP, 'tflsa', 'check.py'), p, '--repo', wt, '--no-evidence'])
